@@ -413,6 +413,7 @@ def G4_numpy_container_pitfalls(repo, clause, scope=ALL_LIB):
             # (d) fixed-width string arrays: dtype=str is ONE character wide, 'U2' two: longer labels are silently truncated on assignment
             dt = next((k.value for k in c.keywords if k.arg == "dtype"), None)
             if dt is not None and nm in ("empty", "zeros", "full", "ndarray", "empty_like", "zeros_like", "full_like", "dtype", "array"):
+                dt = expand(fn, dt)
                 width = None
                 if isinstance(dt, ast.Name) and dt.id == "str":
                     width = 1 if nm in ("empty", "zeros", "full", "ndarray", "empty_like", "zeros_like", "full_like") else None
@@ -921,6 +922,105 @@ def G15_order_and_bucket_pitfalls(repo, clause, scope=ALL_LIB):
                                   "so `distance < %s` is not what the lookup decides" % (ast.unparse(c)[:50], fn.qualname, tol_params[0], tol_params[0]),
                                   slot="rounded-keys:%s" % fn.qualname, positive="robust"))
     obs.append(Ob("G15", clause, fns[0], fns[0].node, True, "%d functions in scope, %d order-pairing / bucket-key constructs flagged" % (len(fns), n), construct="order and bucket inventory", slot="inventory"))
+    return obs
+
+
+def G16_parallel_order(repo, clause, scope=ALL_LIB):
+    """Parallel per-item arrays must be handled in ONE order.
+    (a) `(self.a, self.c, self.b) = [f(arr) for arr in (self.a, self.b, self.c)]`: the unpack targets name the same attributes as the sources in a different order;
+    (b) replicated copies built with np.tile for some attributes and np.repeat for others interleave differently (ABAB vs AABB);
+    (c) `X[s1] = Y[s2]` with s1 taken from the values and s2 from the keys of the same dict where at least one of them is a boolean mask: the mask enumerates in
+        ascending order, the dict in insertion order - rows are paired by rank, not by key -> value."""
+    obs = []
+    fns = _scope_fns(repo, scope)
+    n = 0
+    for fn in fns:
+        # (a)
+        for a in [x for x in fn.own_nodes() if isinstance(x, ast.Assign) and len(x.targets) == 1 and isinstance(x.targets[0], (ast.Tuple, ast.List))]:
+            tg = [ast.unparse(t) for t in a.targets[0].elts if isinstance(t, ast.Attribute)]
+            if len(tg) != len(a.targets[0].elts) or len(tg) < 3:
+                continue
+            v = a.value
+            src = None
+            if isinstance(v, (ast.ListComp, ast.GeneratorExp)) and len(v.generators) == 1:
+                it = expand(fn, v.generators[0].iter)
+                if isinstance(it, (ast.Tuple, ast.List)) and all(isinstance(e, ast.Attribute) for e in it.elts):
+                    src = [ast.unparse(e) for e in it.elts]
+            elif isinstance(v, (ast.Tuple, ast.List)):
+                # each element derived from exactly one attribute
+                cand = []
+                for e in v.elts:
+                    ats = {ast.unparse(y) for y in ast.walk(e) if isinstance(y, ast.Attribute) and isinstance(y.value, ast.Name) and ast.unparse(y) in tg}
+                    cand.append(next(iter(ats)) if len(ats) == 1 else None)
+                if all(c is not None for c in cand):
+                    src = cand
+            if src is None or sorted(src) != sorted(tg) or len(set(tg)) != len(tg):
+                continue
+            n += 1
+            swapped = [(t_, s_) for t_, s_ in zip(tg, src) if t_ != s_]
+            obs.append(Ob("G16", clause, fn, a, not swapped,
+                          "parallel update of %d attributes in %s: %s" % (len(tg), fn.qualname, "targets and sources are in the same order" if not swapped else
+                                                                          "`%s` receives the value computed from `%s` (the unpack targets are not in the order of the sources): the two attributes are exchanged" % swapped[0]),
+                          slot="unpack-order:%s" % fn.qualname, positive="robust" if swapped else False))
+        # (b)
+        reps = {}
+        for a in [x for x in fn.own_nodes() if isinstance(x, ast.Assign) and len(x.targets) == 1 and isinstance(x.targets[0], ast.Attribute) and isinstance(x.value, ast.Call)
+                  and call_name(x.value) in ("tile", "repeat") and x.value.args]:
+            src_attr = next((y.attr for y in ast.walk(a.value.args[0]) if isinstance(y, ast.Attribute)), None)
+            if src_attr is None or src_attr != a.targets[0].attr:
+                continue
+            if call_name(a.value) == "repeat" and any(k.arg == "axis" for k in a.value.keywords):
+                pass
+            blk = id(fn.parents.get(a))
+            reps.setdefault((blk, ast.unparse(a.targets[0].value)), []).append((call_name(a.value), a))
+        for key, lst in reps.items():
+            kinds = {k for k, _ in lst}
+            if len(lst) >= 2:
+                n += 1
+                odd = [a_ for k, a_ in lst if k == "repeat"] if kinds == {"tile", "repeat"} else []
+                obs.append(Ob("G16", clause, fn, odd[0] if odd else lst[0][1], not odd,
+                              "replicated per-atom arrays of %s in %s: %s" % (key[1], fn.qualname, "all built the same way" if not odd else
+                                                                             "`%s` uses np.repeat (a a b b) while the other arrays use np.tile (a b a b): the attribute no longer lines up with the atoms of each image" % ast.unparse(odd[0])[:60]),
+                              slot="tile-vs-repeat:%s" % fn.qualname, positive="robust" if odd else False))
+        # (c)
+        def origin(sel):
+            """('keys' | 'values', dict text, is_mask) for a selector derived from a dict's keys / values, else None"""
+            e = expand(fn, sel)
+            txt = ast.unparse(e).replace(" ", "")
+            import re as _re
+            m = _re.fullmatch(r"(?:list|tuple|np\.array|np\.asarray)?\(?(\w[\w\.]*)\.(keys|values)\(\)\)?", txt)
+            if m:
+                return m.group(2), m.group(1), False
+            if isinstance(sel, ast.Name):
+                # a mask: M = np.zeros(.., dtype=bool); M[list(D.keys())] = True
+                for d in fn.own_nodes():
+                    if isinstance(d, ast.Assign) and len(d.targets) == 1 and isinstance(d.targets[0], ast.Subscript) and isinstance(d.targets[0].value, ast.Name) \
+                            and d.targets[0].value.id == sel.id and const_value(d.value) is True:
+                        t2 = ast.unparse(expand(fn, d.targets[0].slice)).replace(" ", "")
+                        m2 = _re.fullmatch(r"(?:list|tuple|np\.array|np\.asarray)?\(?(\w[\w\.]*)\.(keys|values)\(\)\)?", t2)
+                        if m2:
+                            return m2.group(2), m2.group(1), True
+            return None
+        for a in [x for x in fn.own_nodes() if isinstance(x, ast.Assign) and len(x.targets) == 1 and isinstance(x.targets[0], ast.Subscript)]:
+            s1 = a.targets[0].slice.elts[0] if isinstance(a.targets[0].slice, ast.Tuple) else a.targets[0].slice
+            o1 = origin(s1)
+            if o1 is None:
+                continue
+            for sub in [y for y in ast.walk(a.value) if isinstance(y, ast.Subscript)]:
+                s2 = sub.slice.elts[0] if isinstance(sub.slice, ast.Tuple) else sub.slice
+                o2 = origin(s2)
+                if o2 is None or o2[1] != o1[1] or o2[0] == o1[0]:
+                    continue
+                n += 1
+                bad = o1[2] or o2[2]
+                obs.append(Ob("G16", clause, fn, a, not bad,
+                              "`%s` in %s pairs entries selected through the %s of `%s` with entries selected through its %s: %s" % (
+                                  ast.unparse(a)[:60], fn.qualname, o1[0], o1[1], o2[0],
+                                  "both in the dict's own order" if not bad else
+                                  "a boolean mask enumerates in ASCENDING index order, not in the order of the map - for a map such as {1: 0, 0: 1} the rows are paired by rank and the two atoms exchange their data"),
+                              slot="keys-values-pairing:%s" % fn.qualname, positive="robust" if bad else False))
+                break
+    obs.append(Ob("G16", clause, fns[0], fns[0].node, True, "%d functions in scope, %d parallel-order constructs inspected" % (len(fns), n), construct="parallel order inventory", slot="inventory"))
     return obs
 
 
